@@ -130,3 +130,10 @@ claim("C13", "E3-chain", "exploration", "twin-process differential: node serving
 claim("C16", "E3-chain", "exploration", "per-transaction pre/post oracle on second deliveries: identical bytes and 6 semantics-preserving protobuf re-encodings (validated with the app's own decoder) in the same and later blocks",
       "for 6 message kinds x 7 resubmission classes x 4 placements a freshly signed tx is delivered, then resubmitted; the second delivery must be rejected with all store digests unchanged; identical bytes are rejected, all six re-encodings execute again: listed as 12 known findings (class x placement); legacy amino era not exercised",
       TXNOTE, "DESIGN.md §4 C16")
+ENGINES[-3]["serves_properties"] += ["C24", "C25"]
+claim("C24", "E3-chain", "exploration", "transition monitor over consecutive committed snapshots of chaos histories + generator ledger (causes, session boundaries, completion times, payouts)",
+      "every Staked->Unstaking transition needs a cause (accepted begin-unstake or forced-unstake condition) and a session boundary; applications only by their own request; no unstaking record survives its completion time or disappears early; the stake is returned to the output/application address in the completion block (exactly, when no other ledger flow or same-block slash can interfere); staked records never vanish; held-on-observed",
+      E3NOTE, "DESIGN.md §4 C24")
+claim("C25", "E3-chain", "exploration", "monitor on post-BeginBlock / per-tx snapshots of chaos histories: slash accounting, below-minimum => jailed+queued, dispatch results vs jailed set, pre-state of every accepted unjail",
+      "downtime and double-sign slashes (including ones capped at the whole stake) must burn exactly what the nodes lose, from pool and supply alike; nodes under the minimum are jailed and queued to unstake at every observed point; ~2000 dispatches per run never list a jailed node; every accepted unjail had an authorized signer, the minimum stake and an expired jail period; held-on-observed",
+      E3NOTE + "; per-tx snapshots as in TXNOTE", "DESIGN.md §4 C25")
